@@ -76,7 +76,16 @@ func (p *Pending) Release() {
 }
 
 var ErrCrashed = errors.New("verifsim: actor crashed")
-var ErrTimeout = errors.New("verifsim: injected timeout")
+
+// ErrTimeout is what a request that timed out on the wire looks like to the client: a net.Error whose Timeout() is
+// true (http.Client wraps it in a *url.Error that reports the same), as a real deadline on the connection would give.
+var ErrTimeout error = timeoutErr{}
+
+type timeoutErr struct{}
+
+func (timeoutErr) Error() string   { return "verifsim: injected timeout" }
+func (timeoutErr) Timeout() bool   { return true }
+func (timeoutErr) Temporary() bool { return true }
 
 // InjectFault queues a fault for the actor's next gated request(s).
 func (s *Server) InjectFault(actor string, f Fault) {
